@@ -39,7 +39,21 @@ VARIANTS = [
          top='server.http-parseopts = ("url-normalize-required" => "enable", "url-path-2f-decode" => "disable", "url-path-backslash-trans" => "enable")'),
     dict(name="nonorm", flags=0, lc=0, top='server.http-parseopts = ("url-normalize" => "disable")', hdr='"X-Forwarded-For"', model=True),
     dict(name="forwarded", flags=9560, lc=0, top="", hdr='"Forwarded"', model=False),
+    # url.access-allow: only the listed suffixes may be served at all (no deny list, no conditional blocks in this configuration)
+    dict(name="allow", flags=9560, lc=0, top="", hdr='"X-Forwarded-For"', model=True, allow=[b".txt", b"/"],
+         never={"inc", "tilde", "php", "priv", "script", "pl", "sec"}),
 ]
+CONF_ALLOW = r'''
+index-file.names = ()
+url.access-allow = (".txt", "/")
+static-file.exclude-extensions = (".php", ".pl")
+auth.backend = "plain"
+auth.backend.plain.userfile = "@ROOT@/users"
+auth.require = ("/priv/" => ("method" => "basic", "realm" => "r", "require" => "valid-user"))
+extforward.forwarder = ("127.0.0.1" => "trust", "192.168.0.0/16" => "trust")
+extforward.headers = (%s)
+'''
+CUR = dict(v=None)
 
 
 def marker(tag):
@@ -161,7 +175,13 @@ def in10(a):
 def monitor(rq, resp):
     st, hs, body, _ = srv.split_response(resp)
     found = [tag for tag in set(FILES.values()) if marker(tag) in resp]
+    cur = CUR["v"] or {}
     for tag in found:
+        if "allow" in cur:
+            if tag in cur["never"]:
+                return "file %r, whose name ends in none of the url.access-allow suffixes (or sits behind auth.require), was sent (status %s) for target %r" % (
+                    [k for k, v in FILES.items() if v == tag][0], st, rq["target"])
+            continue
         if tag in NEVER:
             return "protected file %r was sent (status %s) for target %r" % ([k for k, v in FILES.items() if v == tag][0], st, rq["target"])
         host = rq["host"].lower().rstrip(b".")
@@ -186,9 +206,12 @@ def canon_impl(resp, lc):
 # ------------------------------------------------------------------ model line
 def model_line(variant, reqs):
     def hl(l): return ",".join(hx(x) for x in l) if l else "~"
-    t = ["cfg:%d:%d:%s:%s:%s" % (variant["flags"], variant["lc"], hl([b"~", b".inc"]), hl([b".php", b".pl"]), hl([b"/priv/"])),
-         "blk:P" + hx(b"/cond/"), "blk:S" + hx(b".sec") + "/I", "blk:I/P" + hx(b"/ip/"), "blk:H" + hx(b"secret.example"),
-         "fs:%s:%s" % (hl([p.encode() for p in FILES]), hl([d.encode() for d in DIRS])),
+    if "allow" in variant:
+        t = ["cfg:%d:%d:%s:%s:%s:%s" % (variant["flags"], variant["lc"], "~", hl([b".php", b".pl"]), hl([b"/priv/"]), hl(variant["allow"]))]
+    else:
+        t = ["cfg:%d:%d:%s:%s:%s" % (variant["flags"], variant["lc"], hl([b"~", b".inc"]), hl([b".php", b".pl"]), hl([b"/priv/"])),
+             "blk:P" + hx(b"/cond/"), "blk:S" + hx(b".sec") + "/I", "blk:I/P" + hx(b"/ip/"), "blk:H" + hx(b"secret.example")]
+    t += ["fs:%s:%s" % (hl([p.encode() for p in FILES]), hl([d.encode() for d in DIRS])),
          "tr:%s:%s" % (hl(TRUST_EXACT), hl(TRUST_CIDR))]
     for rq in reqs:
         host = rq["host"].lower()
@@ -226,7 +249,8 @@ def h2_roundtrip(s, rq, v):
 
 def start_variant(ctx, v, sanitize=False):
     files = {p: marker(t) for p, t in FILES.items()}
-    s = srv.Server(ctx, v["name"], CONF % v["hdr"], files=files, modules=MODS, extra_top=v["top"], sanitize=sanitize)
+    CUR["v"] = v
+    s = srv.Server(ctx, v["name"], (CONF_ALLOW if "allow" in v else CONF) % v["hdr"], files=files, modules=MODS, extra_top=v["top"], sanitize=sanitize)
     with open(os.path.join(s.root, "users"), "w") as f: f.write("alice:secret\n")
     return s.start()
 
